@@ -498,10 +498,12 @@ def run(repo: Repo, rep: Report, tier: str) -> None:
     # BCH / RS constructions presuppose that alpha (the class of X modulo the tabulated modulus) is primitive:
     # with a non-primitive modulus the consecutive powers alpha^1..alpha^(delta-1) are not distinct roots and the
     # designed distance is not reached.  Same rule as C18.
-    from .c18 import rule_modulus_table
+    from .c18 import rule_kernels, rule_modulus_table
 
     rule_modulus_table(repo, rep)
-    n += 1
+    # the generator / check polynomials of the cyclic families are products, remainders and quotients in GF(2)[x]
+    rule_kernels(repo, rep)
+    n += 2
     for file, names in ((HAM, ["create_hamming_parity_submatrix"]), (GOLAY, ["create_golay_parity_submatrix"]), (BCH, ["compute_bch_generator_polynomial", "create_bch_generator_matrix"])):
         for nm in names:
             lint_value_keyed(rep, repo.func(file, nm), rule="G1", allowed_literals={0, 1, -1, 2, 8})
